@@ -43,6 +43,23 @@ def load_cases():
     return cases
 
 
+BASELINE = {}
+
+
+def baseline(prop, timeout_ms):
+    """failing obligations of the unchanged tree for prop (should be empty); cached"""
+    if prop in BASELINE:
+        return BASELINE[prop]
+    cmd = [f"{VERIF}/bin/govc", "check", "--property", prop, "--no-replay", "--no-evidence"]
+    if timeout_ms:
+        cmd += ["--timeout", str(timeout_ms)]
+    r = subprocess.run(cmd, capture_output=True, text=True, env=ENV)
+    BASELINE[prop] = set(re.findall(r"^obligation (\S+) failed", r.stdout, flags=re.M))
+    if BASELINE[prop]:
+        print(f"WARNING: {prop} already fails on the unchanged tree: {sorted(BASELINE[prop])[:5]}")
+    return BASELINE[prop]
+
+
 def run_case(case, claimed, timeout_ms):
     res = []
     props = [p for p in case["props"] if p in claimed]
@@ -54,7 +71,7 @@ def run_case(case, claimed, timeout_ms):
         shutil.copytree(REPO, repo, ignore=shutil.ignore_patterns(".git"))
         vdir = os.path.join(scratch, "verif")
         os.makedirs(vdir)
-        for sub in ("spec", "assumed", "known_findings.json"):
+        for sub in ("spec", "assumed", "harness", "known_findings.json"):
             src = os.path.join(VERIF, sub)
             if os.path.isdir(src):
                 shutil.copytree(src, os.path.join(vdir, sub))
@@ -67,12 +84,14 @@ def run_case(case, claimed, timeout_ms):
                 return [(case, p, "PATCH-FAILED", ap.stdout + ap.stderr) for p in props]
         for p in props:
             cmd = [f"{VERIF}/bin/govc", "check", "--property", p, "--repo", repo, "--verif", vdir, "--no-replay"]
+            baseline(p, timeout_ms)
             if timeout_ms:
                 cmd += ["--timeout", str(timeout_ms)]
             r = subprocess.run(cmd, capture_output=True, text=True, env=ENV)
             out = r.stdout + r.stderr
             viol = "VIOLATION property=" + p in r.stdout
-            failed = re.findall(r"^obligation (\S+) failed", r.stdout, flags=re.M)
+            failed = [f for f in re.findall(r"^obligation (\S+) failed", r.stdout, flags=re.M) if f not in baseline(p, timeout_ms)]
+            viol = viol and bool(failed)
             if case["expect"] == "violation":
                 ok = r.returncode == 1 and viol and (not case["obligation"] or any(case["obligation"] in f for f in failed))
                 verdict = "caught" if ok else ("MISSED" if r.returncode == 0 else f"WRONG(exit={r.returncode})")
